@@ -23,7 +23,7 @@ type CliOp struct {
 }
 
 type SrvOp struct {
-	Kind string `json:"k"` // down | up | reset | refuse | timeout | sleep
+	Kind string `json:"k"` // down | up | reset | refuse | timeout | cut | sleep
 	Us   int    `json:"us,omitempty"`
 	N    int    `json:"n,omitempty"`
 }
@@ -88,6 +88,9 @@ func (clientScn) Generate(g *simrt.Rng, tier string) any {
 			}
 		case g.Bool(0.4):
 			p.Server = append(p.Server, SrvOp{Kind: "reset"})
+		case g.Bool(0.3):
+			// the server (or something in front of it) accepts the connection and fails the handshake, several times in a row
+			p.Server = append(p.Server, SrvOp{Kind: "reset"}, SrvOp{Kind: "cut", N: 1 + g.IntN(8)})
 		case g.Bool(0.5):
 			p.Server = append(p.Server, SrvOp{Kind: "refuse", N: 1 + g.IntN(5)})
 		default:
@@ -109,9 +112,11 @@ func (clientScn) Decode(raw json.RawMessage) (any, error) {
 type dialRec struct {
 	start, end time.Duration
 	ok         bool
+	cut        bool // the connection was established and reset inside its handshake: a failed attempt
 }
 
 type clientRun struct {
+	handshakeBackoff string
 	p       *ClientScnPlan
 	bg      async.CancelContext
 	log     *recLogger
@@ -206,6 +211,8 @@ func (clientScn) Run(t *testing.T, seed uint64, plan any, o RunOpts) *Report {
 	}
 	if v := r.checkBackoff(rep); v != "" {
 		rep.violate("C19-backoff", "%s", v)
+	} else if r.handshakeBackoff != "" {
+		rep.violate("C19-backoff-after-handshake-failure", "%s", r.handshakeBackoff)
 	}
 	if r.net != nil {
 		if m := r.net.Stats.MaxOpenClient[simAddr]; m > r.maxConns() {
@@ -241,6 +248,16 @@ func (r *clientRun) checkBackoff(rep *Report) string {
 			maxRun = run
 		}
 		gap := b.start - a.end
+		if a.cut {
+			// the attempt failed in the handshake, not in the dial: judged under a rule of its own
+			if gap < 25*time.Millisecond || gap > time.Second || gap < prevGap {
+				r.handshakeBackoff = fmt.Sprintf("retry #%d of a run of failed connection attempts came %v after an attempt that connected and failed its handshake (previous back-off %v): the back-off must stay within [25ms, 1s] and never decrease within a run of failures", run+1, gap, prevGap)
+				run, prevGap = 0, 0
+				continue
+			}
+			prevGap = gap
+			continue
+		}
 		if gap < 25*time.Millisecond || gap > time.Second {
 			return fmt.Sprintf("retry #%d of a run of dial failures came %v after the previous attempt ended; the back-off must stay within [25ms, 1s]", run+1, gap)
 		}
@@ -281,7 +298,7 @@ func (r *clientRun) stopServer() {
 func (r *clientRun) main() {
 	p := r.p
 	r.net = p.Env.install()
-	r.net.OnDial = func(start, end time.Duration, ok bool) { r.dials = append(r.dials, dialRec{start, end, ok}) }
+	r.net.OnDial = func(start, end time.Duration, ok, cut bool) { r.dials = append(r.dials, dialRec{start, end, ok, cut}) }
 	r.log = newRecLogger()
 	r.bg = async.NewContext()
 	r.startServer()
@@ -317,6 +334,8 @@ func (r *clientRun) main() {
 						pr.Reset("harness")
 					}
 				}
+			case "cut":
+				r.net.CutHandshakes(simAddr, op.N)
 			case "refuse":
 				r.net.RefuseDials(simAddr, op.N)
 			case "timeout":
@@ -330,6 +349,7 @@ func (r *clientRun) main() {
 	}
 	r.net.RefuseDials(simAddr, 0)
 	r.net.TimeoutDials(simAddr, 0)
+	r.net.CutHandshakes(simAddr, 0)
 
 	// recovery: the server is up and stays up, no more faults. An in-flight (black-holed) dial may
 	// still take the dial timeout, then at most the 1 s back-off cap, then one healthy dial.
